@@ -4,6 +4,8 @@ import (
 	"context"
 	"errors"
 	"fmt"
+	"runtime"
+	"strings"
 	"sync"
 	"sync/atomic"
 	"time"
@@ -24,17 +26,53 @@ type rtStore struct {
 	failAt    int32 // fail the k-th CAS (1-based), 0 = none
 	failAfter int32 // "holder death": every CAS from this call number on fails
 	lastCas   atomic.Value
+	// the k-th CAS (holdAt, 1-based) is kept in flight until `resume` is closed, then fails transiently
+	holdAt  int32
+	reached chan struct{}
+	resume  chan struct{}
+	mu      sync.Mutex
+	okBy    map[string][]time.Time // Locker (receiver pointer of supportTimeout) -> times of its successful renewals
+}
+
+// renewalOwner finds the receiver of the supportTimeout frame on the calling goroutine's stack: the Locker
+// whose renewal chain issued this storage call ("" if the call does not come from a renewal).
+func renewalOwner() string {
+	buf := make([]byte, 8192)
+	n := runtime.Stack(buf, false)
+	s := string(buf[:n])
+	i := strings.Index(s, ").supportTimeout(")
+	if i < 0 {
+		return ""
+	}
+	rest := s[i+len(").supportTimeout("):]
+	j := strings.IndexAny(rest, ",)")
+	if j < 0 {
+		return ""
+	}
+	return strings.TrimSpace(rest[:j])
 }
 
 func (s *rtStore) CasByVersion(ctx context.Context, r kvs.Record) (kvs.Record, error) {
 	n := atomic.AddInt32(&s.casCalls, 1)
 	s.lastCas.Store(time.Now())
+	owner := renewalOwner()
+	if n == atomic.LoadInt32(&s.holdAt) && s.resume != nil {
+		close(s.reached)
+		<-s.resume
+		return kvs.Record{}, errors.New("connection reset by peer (injected after the call was held in flight)")
+	}
 	if n == atomic.LoadInt32(&s.failAt) || (atomic.LoadInt32(&s.failAfter) > 0 && n >= atomic.LoadInt32(&s.failAfter)) {
 		return kvs.Record{}, errors.New("storage temporarily unavailable (injected)")
 	}
 	res, err := s.Storage.CasByVersion(ctx, r)
 	if err == nil {
 		atomic.AddInt32(&s.casOK, 1)
+		s.mu.Lock()
+		if s.okBy == nil {
+			s.okBy = map[string][]time.Time{}
+		}
+		s.okBy[owner] = append(s.okBy[owner], time.Now())
+		s.mu.Unlock()
 	}
 	return res, err
 }
@@ -134,6 +172,52 @@ func rtScenario(kind string, k int, lease time.Duration) rtResult {
 	return res
 }
 
+// rtAdoptScenario: a renewal of holder A is in flight when A unlocks; B acquires; the in-flight call then
+// fails transiently.  The chain of A's finished tenure must die out: no renewal issued for Locker A may
+// SUCCEED after A's Unlock returned (it would be renewing somebody else's record).
+func rtAdoptScenario(lease time.Duration) rtResult {
+	res := rtResult{name: fmt.Sprintf("adopt lease=%v", lease)}
+	st := &rtStore{Storage: inmem.New(), holdAt: 1, reached: make(chan struct{}), resume: make(chan struct{})}
+	pa := dist.NewKvsLockProvider(st, "/rt/")
+	pb := dist.NewKvsLockProvider(st, "/rt/")
+	dist.VerifSetLease(pa, lease)
+	dist.VerifSetLease(pb, lease)
+	defer pa.Shutdown()
+	defer pb.Shutdown()
+	a := pa.NewLocker("l")
+	b := pb.NewLocker("l")
+	a.Lock()
+	select {
+	case <-st.reached:
+	case <-time.After(3 * lease):
+		res.bad = "no renewal was issued within 3 lease periods"
+		close(st.resume)
+		a.Unlock()
+		return res
+	}
+	a.Unlock()
+	tu := time.Now()
+	b.Lock()
+	close(st.resume) // A's in-flight renewal now fails with a transient error
+	time.Sleep(2 * lease)
+	owner := fmt.Sprintf("%p", a)
+	st.mu.Lock()
+	late := 0
+	for _, at := range st.okBy[owner] {
+		if at.After(tu) {
+			late++
+		}
+	}
+	known := len(st.okBy)
+	st.mu.Unlock()
+	if late > 0 {
+		res.bad = fmt.Sprintf("%d renewal(s) issued for the Locker that had ALREADY unlocked succeeded afterwards: the chain of the finished tenure renews the next holder's record", late)
+	}
+	res.info = fmt.Sprintf("renewals ok per locker: %d lockers seen, late successes of the unlocked one: %d", known, late)
+	b.Unlock()
+	return res
+}
+
 func runLockRT(ctx *Ctx) {
 	lease := 300 * time.Millisecond
 	type sc struct {
@@ -184,6 +268,22 @@ func runLockRT(ctx *Ctx) {
 		if r.bad != "" {
 			ctx.R.Quiet("mon C05-"+map[string]string{"steady": "lease-kept-while-held", "transient": "lease-kept-after-transient-error", "death": "dead-holder-released", "unlock-race": "renewal-dies-after-unlock"}[scs[i].kind], r.name+": "+r.bad)
 		}
+	}
+	// Unlock while a renewal is in flight + transient failure of that call + a new holder
+	ra := rtAdoptScenario(lease)
+	if ra.bad != "" {
+		// not timing dependent in the bad direction, but confirm once with a longer lease like the others
+		if rb := rtAdoptScenario(2 * lease); rb.bad == "" {
+			ctx.R.Stats.Notes = append(ctx.R.Stats.Notes, "timing flake discarded: "+ra.name+": "+ra.bad)
+			ra.bad = ""
+		}
+	}
+	ctx.R.Case("realtime")
+	ctx.R.Nontrivial("adopt")
+	ctx.R.Op("scenario adopt-1", "ok")
+	ctx.R.Comment(ra.name + ": " + ra.info)
+	if ra.bad != "" {
+		ctx.R.Quiet("mon C05-renewal-dies-after-unlock", ra.name+": "+ra.bad)
 	}
 }
 
